@@ -42,6 +42,9 @@ class MatrixOp(diff.DiffOperator, operator.CombinableOperator):
         # setup matrix operator
         self.mat, self.mat0 = matrix_setup(mat, mat0, axes=axes, check=check)
 
+        if axes is not None:
+            self._move_coefficients(axes, matrix_setup(mat, mat0, check=check)[0].ndim - 2)
+
         # setup derivatives
         dmats = dmats or {}
         d2mats = d2mats or {}
